@@ -310,6 +310,29 @@ func loopsOf(fn *ssa.Function) [][]*ssa.BasicBlock {
 	return out
 }
 
+// lifecycleAdderFor: the function registered as doing the Add for a goroutine body - the table names the body as
+// the closure it is in the pinned tree (`spawner$1`); the same goroutine whose body was made a method
+// (`go dp.consume()`) is recognised by its spawner when that is the spawner's only go statement.
+func lifecycleAdderFor(tab map[string]string, spawner, body *ssa.Function) (string, bool) {
+	if ad, ok := tab[fname(body)]; ok {
+		return ad, true
+	}
+	if body.Parent() != nil {
+		return "", false
+	}
+	gos := 0
+	allInstrs(spawner, func(in ssa.Instruction) {
+		if _, ok := in.(*ssa.Go); ok && in.Parent() == spawner {
+			gos++
+		}
+	})
+	if gos != 1 {
+		return "", false
+	}
+	ad, ok := tab[fname(spawner)+"$1"]
+	return ad, ok
+}
+
 // ruleGoroutines checks every go statement of the module (outside examples).
 func (a *A) ruleGoroutines(lifecycleAdders map[string]string) {
 	sites := a.goSites()
@@ -444,7 +467,7 @@ func (a *A) ruleGoroutines(lifecycleAdders map[string]string) {
 			}
 			if local {
 				a.Ok(name+":"+bname+"#wg-add-before-go", gs.In.Pos(), "%s.Add precedes the go statement", doneField.Name())
-			} else if adder, ok := lifecycleAdders[bname]; ok {
+			} else if adder, ok := lifecycleAdderFor(lifecycleAdders, gs.Fn, gs.Body); ok {
 				// registered elsewhere: that function must contain the Add
 				found := false
 				for _, f := range a.ModFuncs {
@@ -809,11 +832,15 @@ func (a *A) ruleRegisteredGoroutinesSpawned() int {
 			if !ok || in.Parent() != fn {
 				return
 			}
-			mc, ok := g.Call.Value.(*ssa.MakeClosure)
-			if !ok {
+			var body *ssa.Function
+			if mc, ok := g.Call.Value.(*ssa.MakeClosure); ok {
+				body = mc.Fn.(*ssa.Function)
+			} else if sc := g.Call.StaticCallee(); sc != nil && sc.Blocks != nil && a.fnInModule(sc) {
+				body = sc // `go dp.consume()`: the goroutine body is a method
+			}
+			if body == nil {
 				return
 			}
-			body := mc.Fn.(*ssa.Function)
 			allInstrs(body, func(x ssa.Instruction) {
 				if d, ok := x.(*ssa.Defer); ok && isLife(&d.Call, "Done") && a.CGReaches(pipeline, fn) {
 					spawners = append(spawners, fn)
